@@ -1,7 +1,7 @@
 #!/bin/bash
 # usage: confirm_mutant.sh <ID>  -- in the scratch worktree /tmp/wt_<ID> (patch applied, demo present):
 #   demo fails with the patch, the existing suite passes with it, the demo passes without it.
-ID=$1; W=/tmp/wt_$ID; cd $W || exit 2
+ID=$1; W=/tmp/wt_$ID; case "$ID" in /*) W=$ID; ID=$(basename $W);; esac; cd $W || exit 2
 DEMO=$(ls tests/seeded_* 2>/dev/null | head -1); T=$(basename "$DEMO" .rs)
 FEAT=""; grep -q 'loom::future' "$DEMO" && FEAT="--features futures"
 grep -q 'checkpoint' "$DEMO" && FEAT="--features checkpoint"
